@@ -732,11 +732,13 @@ func Structures() []Entry {
 			"data": {Labels: []*schema.LabelSchema{{Name: "name"}}, Type: schema.BlockTypeObject,
 				Body: &schema.BodySchema{
 					Attributes: map[string]*schema.AttributeSchema{
-						"s": {Constraint: schema.LiteralType{Type: cty.String}, IsOptional: true},
-						"l": {Constraint: schema.LiteralType{Type: cty.List(cty.String)}, IsOptional: true},
-						"o": {Constraint: schema.LiteralType{Type: objType}, IsOptional: true},
-						"m": {Constraint: schema.AnyExpression{OfType: cty.Map(cty.Number)}, IsOptional: true},
-						"c": {Constraint: schema.LiteralType{Type: cty.String}, IsComputed: true},
+						"s":    {Constraint: schema.LiteralType{Type: cty.String}, IsOptional: true},
+						"l":    {Constraint: schema.LiteralType{Type: cty.List(cty.String)}, IsOptional: true},
+						"o":    {Constraint: schema.LiteralType{Type: objType}, IsOptional: true},
+						"m":    {Constraint: schema.AnyExpression{OfType: cty.Map(cty.Number)}, IsOptional: true},
+						"c":    {Constraint: schema.LiteralType{Type: cty.String}, IsComputed: true},
+						"num":  {Constraint: schema.LiteralType{Type: cty.Number}, IsOptional: true},
+						"flag": {Constraint: schema.LiteralType{Type: cty.Bool}, IsOptional: true},
 					},
 					Blocks: map[string]*schema.BlockSchema{
 						"lb": {Type: schema.BlockTypeList, Body: &schema.BodySchema{Attributes: map[string]*schema.AttributeSchema{"v": strAttr(nil)}}},
@@ -752,6 +754,8 @@ func Structures() []Entry {
 		"variable \"a\" {\n  type = list(string)\n  default = [\"x\"]\n}\nvariable \"b\" {\n}\nprovider \"p\" {\n  alias = \"one\"\n}\nprovider \"q\" {\n}\n",
 		"strict \"s\" {\n  alias = \"al\"\n}\nstrict \"t\" {\n}\nstrict \"u\" {\n  alias = true ? null : \"a\"\n}\nprovider \"r\" {\n  alias = 42\n}\ntypeof_missing {\n  nosuch = string\n}\n",
 		"data \"d\" {\n  s = \"x\"\n  l = [\"a\", \"b\"]\n  o = { foo = \"f\", bar = true }\n  m = { k = 1 }\n  lb {\n    v = \"1\"\n  }\n  lb {\n    v = \"2\"\n  }\n  sb {\n  }\n  mb \"k1\" {\n    v = self.s\n  }\n  ob {\n  }\n}\n",
+		// map-typed nested blocks of an inferred body: the first without its key label, later ones with it
+		"data \"e\" {\n  mb {\n    v = \"0\"\n  }\n  mb \"k2\" {\n    v = \"1\"\n  }\n  mb \"k3\" {\n  }\n  lb {\n  }\n  num = -1\n  flag = !true\n}\ndata \"f\" {\n  num = (3)\n  flag = (false)\n}\ndata \"g\" {\n  num = -0.5e1\n}\n",
 		"variable \"a\" {\n  type = \n}\nvariable {\n}\n",
 		// a typed declaration that also holds a nested block
 		"variable \"x\" {\n  type = string\n  validation {\n    msg = \"m\"\n  }\n}\nvariable \"y\" {\n  validation {\n  }\n  type = map(number)\n}\n",
@@ -923,7 +927,15 @@ func Structures() []Entry {
 				Body: &schema.BodySchema{Attributes: map[string]*schema.AttributeSchema{
 					"mode": {Constraint: schema.LiteralType{Type: cty.String}, IsOptional: true, IsDepKey: true}}},
 				DependentBody: map[schema.SchemaKey]*schema.BodySchema{
-					depKey([]schema.LabelDependent{lbl(0, "aws")}, nil):                                                                markerBody("m_aws", nil),
+					depKey([]schema.LabelDependent{lbl(0, "aws")}, nil): markerBody("m_aws", func(b *schema.BodySchema) {
+						b.Detail = "aws alone"
+						b.Description = lang.Markdown("selected by the label")
+					}),
+					// the same label value once more, in a key that also carries an attribute (Terraform: resource type + provider)
+					depKey([]schema.LabelDependent{lbl(0, "aws")}, []schema.AttributeDependent{attrDep("mode", cty.StringVal("x"))}): markerBody("m_aws_x", func(b *schema.BodySchema) {
+						b.Detail = "aws with x"
+						b.Description = lang.Markdown("selected by label and mode")
+					}),
 					depKey([]schema.LabelDependent{lbl(0, "gcp")}, []schema.AttributeDependent{attrDep("mode", cty.StringVal("x"))}):   markerBody("m_gcp_x", nil),
 					depKey([]schema.LabelDependent{lbl(0, "gcp")}, []schema.AttributeDependent{attrDep("mode", cty.StringVal("y"))}):   markerBody("m_gcp_y", nil),
 					depKey([]schema.LabelDependent{lbl(0, "azure")}, []schema.AttributeDependent{attrDep("mode", cty.StringVal("x"))}): markerBody("m_az_x", nil),
